@@ -25,6 +25,7 @@ type runner struct {
 	m     *vh.Model
 	w     *worker
 	nCase int
+	crashes int // child processes lost to a fatal error / hang
 	sigs  map[string]string // every violation signature seen → coordinates of its first case (debug dump)
 }
 
